@@ -3795,6 +3795,8 @@ def c08_project_one_axis(ns, axis, n):
         mask = _nd_build(shape, lambda i: m0[i])
         made = []
 
+        POP_IDS, EXTRAP_X = Tm('self.pop_ids'), Tm('self.extrap_x')
+
         def gh(ex_, obj, name, ctx):
             if obj is data:
                 if name == 'sample_sizes':
@@ -3803,6 +3805,10 @@ def c08_project_one_axis(ns, axis, n):
                     return len(ns)
                 if name == 'mask':
                     return mask
+                if name == 'pop_ids':
+                    return POP_IDS
+                if name == 'extrap_x':
+                    return EXTRAP_X
             return NotImplemented
 
         def ah(ex_, fref, a, kw, ctx):
@@ -5122,6 +5128,132 @@ def c17_vourlaki_mixture():
         out.append(struct(oid + '.no-other-terms', not extra, 'no further terms' if not extra else 'unexpected terms: %s' % [k[:120] for k in extra], fn))
         return out
     return go()
+
+
+def _bind_method_call(t, relpath, qual):
+    """bind the arguments of an opaque method-call term (positional values and ('kw', name, value) triples) to the formal parameters of the real
+    method `qual` of `relpath` (self dropped); parameters not given get their default from the source (constants only)."""
+    mod = ModInfo.load(relpath)
+    node = mod.funcs[qual]
+    formals = [a.arg for a in node.args.args][1:]
+    defaults = node.args.defaults
+    dflt = {}
+    for a, dv in zip(formals[len(formals) - len(defaults):], defaults):
+        dflt[a] = dv.value if isinstance(dv, ast.Constant) else Tm('default:' + ast.dump(dv)[:40])
+    pos = [x for x in t.args if not (isinstance(x, tuple) and len(x) == 3 and x[0] == 'kw')]
+    kws = {x[1]: x[2] for x in t.args if isinstance(x, tuple) and len(x) == 3 and x[0] == 'kw'}
+    if len(pos) > len(formals) or set(kws) - set(formals) or set(kws) & set(formals[:len(pos)]):
+        raise Unsupported('call does not fit the signature of %s: %s' % (qual, vrepr(t)[:120]))
+    b = dict(dflt)
+    b.update(zip(formals, pos))
+    b.update(kws)
+    missing = [f_ for f_ in formals if f_ not in b]
+    if missing:
+        raise Unsupported('call of %s leaves %s unbound' % (qual, missing))
+    return b
+
+
+def c17_mixture_functions():
+    """Cache2D_mod.mixture / mixture_symmetric_point_pos / mixture_point_pos (2 shared pdf parameters, everything symbolic):
+         result = (1 - p2d) * s1.<1-D integral> + p2d * s2.<2-D integral>          (exact linear combination, nothing else)
+    and every argument reaches the *formal parameter it is meant for* in the real signatures of the cache methods (bound by name from the source):
+      1-D part: params = the shared parameters (+ [ppos1, gamma_pos1] for the point-mass variants), ns None, the univariate distribution, theta,
+                Npos = 1 / exterior_int forwarded;
+      2-D part: params = shared + [rho] (+ the point-mass parameters in the documented order), the bivariate distribution, theta, and for
+                integrate_point_pos the keyword rho = the correlation parameter (it selects the quadrant weights), pts None."""
+    oid = 'C17/Cache2D_mod.py:mixtures'
+    out = []
+    C1, C2 = 'dadi/DFE/Cache1D_mod.py', 'dadi/DFE/Cache2D_mod.py'
+    for fname in ('mixture', 'mixture_symmetric_point_pos', 'mixture_point_pos'):
+        fn = 'dadi/DFE/Cache2D_mod.py::' + fname
+        o = '%s.%s' % (oid, fname)
+        try:
+            ex = Executor()
+            f = ex.func(C2, fname)
+            a_, b_ = z3.Reals('mu sigma')
+            rho, pp1, gp1, pp2, gp2, p2d, pp, gp = z3.Reals('rho ppos1 gamma_pos1 ppos2 gamma_pos2 p2d ppos gamma_pos')
+            theta = z3.Real('theta')
+            ext = z3.Bool('exterior_int')
+            s1, s2, d1, d2 = Tm('s1'), Tm('s2'), Tm('sel_dist1'), Tm('sel_dist2')
+            if fname == 'mixture':
+                params = [a_, b_, rho, p2d]
+                kw = dict(exterior_int=ext)
+                want1 = ('Cache1D.integrate', dict(params=[a_, b_], ns=None, sel_dist=d1, theta=theta, exterior_int=ext))
+                want2 = ('Cache2D.integrate', dict(params=[a_, b_, rho], ns=None, sel_dist=d2, theta=theta, exterior_int=ext))
+            elif fname == 'mixture_symmetric_point_pos':
+                params = [a_, b_, rho, pp, gp, p2d]
+                kw = {}
+                want1 = ('Cache1D.integrate_point_pos', dict(params=[a_, b_, pp, gp], ns=None, sel_dist=d1, theta=theta, Npos=1))
+                want2 = ('Cache2D.integrate_symmetric_point_pos', dict(params=[a_, b_, rho, pp, gp], ns=None, biv_seldist=d2, theta=theta))
+            else:
+                params = [a_, b_, rho, pp1, gp1, pp2, gp2, p2d]
+                kw = {}
+                want1 = ('Cache1D.integrate_point_pos', dict(params=[a_, b_, pp1, gp1], ns=None, sel_dist=d1, theta=theta, Npos=1))
+                want2 = ('Cache2D.integrate_point_pos', dict(params=[a_, b_, rho, pp1, gp1, pp2, gp2], ns=None, biv_seldist=d2, theta=theta, rho=rho))
+            paths = ex.run(f, [VList(list(params), 'ndarray'), Tm('ns'), s1, s2, d1, d2, theta, Tm('pts')], kw)
+            rets = [p for p in paths if p.outcome == 'return']
+            if len(rets) != 1 or len(paths) != 1:
+                out.append(struct(o, False, 'expected one returning path: %r' % paths[:2], fn, undecided=True))
+                continue
+            p = rets[0]
+            calls = [e[2] for e in p.log if e[0] == 'call' and isinstance(e[2], Tm)]
+            c1 = [t for t in calls if t.op.endswith('(s1)') and 'attr:' in t.op]
+            c2 = [t for t in calls if t.op.endswith('(s2)') and 'attr:' in t.op]
+            if len(c1) != 1 or len(c2) != 1:
+                out.append(struct(o + '.calls', False, 'expected one call on each cache, got %s / %s' % ([t.op for t in c1], [t.op for t in c2]), fn, finding_key='C17/mixtures/' + fname))
+                continue
+            for tag, t, (qual, want), rp in (('1d', c1[0], want1, C1), ('2d', c2[0], want2, C2)):
+                meth = qual.split('.')[1]
+                bad = []
+                if 'attr:%s(' % meth not in t.op:
+                    bad.append('calls %s, expected %s' % (t.op, meth))
+                else:
+                    try:
+                        b = _bind_method_call(t, rp, qual)
+                    except KeyError:
+                        out.append(struct('%s.%s' % (o, tag), False, 'method %s not found in %s' % (qual, rp), fn, undecided=True))
+                        continue
+                    goals = []
+                    for k, w in want.items():
+                        g = b.get(k)
+                        if isinstance(w, list):
+                            items = ex.iterate(g) if isinstance(g, (VList, list, tuple)) else None
+                            if items is None or len(items) != len(w):
+                                bad.append('%s is %s, expected %d values' % (k, vrepr(g)[:60], len(w)))
+                            else:
+                                goals += [(to_real(exact(x)) == y, '%s[%d]' % (k, i)) for i, (x, y) in enumerate(zip(items, w))]
+                        elif isinstance(w, z3.ExprRef):
+                            g = exact(g)
+                            if isinstance(g, bool):
+                                g = z3.BoolVal(g)
+                            if not isinstance(g, z3.ExprRef) or z3.is_bool(g) != z3.is_bool(w):
+                                bad.append('%s is %s' % (k, vrepr(g)[:40]))
+                            else:
+                                goals.append(((g == w) if z3.is_bool(w) else (to_real(g) == w), k))
+                        elif w is None:
+                            if g is not None:
+                                bad.append('%s is %s, expected None' % (k, vrepr(g)[:40]))
+                        elif isinstance(w, int):
+                            if exact(g) != w:
+                                bad.append('%s is %s, expected %r' % (k, vrepr(g)[:40], w))
+                        elif g is not w:
+                            bad.append('%s is %s, expected %s' % (k, vrepr(g)[:40], vrepr(w)))
+                    mm = discharge(goals, list(p.pc))
+                    if mm:
+                        bad.append(mm)
+                out.append(struct('%s.%s-arguments' % (o, tag), not bad, '; '.join(bad)[:400] or '%s(%s) each bound to its formal parameter' % (qual, ', '.join(sorted(want))), fn,
+                                  finding_key='C17/mixtures/' + fname))
+            lf = linear_form(p.value)
+            k1 = [k for k in lf if lf[k][0] is c1[0] or k == vrepr(c1[0])]
+            k2 = [k for k in lf if lf[k][0] is c2[0] or k == vrepr(c2[0])]
+            if len(lf) != 2 or len(k1) != 1 or len(k2) != 1:
+                out.append(struct(o + '.combination', False, 'result is not a combination of exactly the two integrals: %s' % [k[:60] for k in lf], fn, finding_key='C17/mixtures/' + fname))
+                continue
+            out.append(prove_eq(o + '.weight-1d', list(p.pc), lf[k1[0]][1], 1 - p2d, fn, finding_key='C17/mixtures/' + fname))
+            out.append(prove_eq(o + '.weight-2d', list(p.pc), lf[k2[0]][1], p2d, fn, finding_key='C17/mixtures/' + fname))
+        except (Unsupported, PyRaise) as e:
+            out.append(struct(o, False, 'outside the modelled subset: %r' % (e,), fn, undecided=True))
+    return out
 
 
 def c16_integration_event(K):
